@@ -218,10 +218,10 @@ Section REF.
   Lemma reset_real gst xp old new salt iv : wfst gst ->
     s_reset (map realize gst) xp old new salt iv = omap_st (g_reset gst xp old new salt iv).
   Proof.
-    intros W. unfold Store.s_reset, reset_begin, StoreSpec.g_reset. rewrite load_dec_real by exact W.
+    intros W. unfold Store.s_reset, StoreSpec.g_reset. rewrite load_dec_real by exact W.
     unfold StoreSpec.g_load_dec.
     destruct (g_find gst xp) as [g| |] eqn:F; try reflexivity.
-    destruct (pw_ok g old); [|reflexivity]. cbn [omap_st reset_finish]. f_equal.
+    destruct (pw_ok g old); [|reflexivity]. cbn [omap_st]. f_equal.
     apply find_in in F. destruct F as (_ & F1).
     unfold put_file, StoreSpec.g_put. rewrite !map_map.
     cbn [StoreSpec.realize se_kf Model.encrypt_key kf_alias].
@@ -477,6 +477,17 @@ Section REF.
     destruct (pw_ok g pw); reflexivity.
   Qed.
 
+  (* after any sequence of whole operations (no guard): every key file's alias is the alias the
+     cache holds for it *)
+  Lemma alias_consistent ops : forall sid e,
+    In e (getst (fst (run [] ops)) sid) -> kf_alias (se_kf e) = se_alias e.
+  Proof.
+    intros sid e Hin.
+    destruct (run_refines ops [] wfsys_nil) as (E & _). change (realize_sys []) with (@nil (N * store)) in E.
+    rewrite E in Hin. cbn [fst] in Hin. rewrite getst_real in Hin.
+    apply in_map_iff in Hin. destruct Hin as (g & <- & _). reflexivity.
+  Qed.
+
   (* every sequence of whole operations from the empty system that never imports a key into a
      store that holds it: the implementation model holds the realisation of the book, answers as
      the book, and every key of the book opens with exactly the passwords the book accepts *)
@@ -514,7 +525,7 @@ Section REF.
   Qed.
 End REF.
 
-(* ---- the two findings: what goes wrong outside the guard / outside whole operations ---- *)
+(* ---- the finding: what goes wrong outside the guard ---- *)
 Section REFUTED.
   Variable G : Type.
   Variable smul : N -> G.
@@ -547,45 +558,7 @@ Section REFUTED.
       rewrite (bytes_eqb_false a1 a2 Hne). cbn [orb app upd_res setst]. rewrite N.eqb_refl. reflexivity.
     - intros pw. unfold s_load, load_dec. rewrite F. reflexivity.
     - intros pw. unfold s_delete, load_dec. rewrite F. reflexivity.
-    - intros old new s i. unfold s_reset, reset_begin, load_dec. rewrite F. reflexivity.
-  Qed.
-
-  (* ResetPassword reads the key file, UpdateKeyAlias renames the key, ResetPassword writes the
-     file back with the alias it read: the file's alias and the cache's alias differ, and NO
-     password opens the key (until the cache is rebuilt from the files, which also loses the
-     new alias) *)
-  Hypothesis ctr_len : forall k iv n, length (ctr k iv n) = n.
-
-  Lemma reset_alias_race_refuted g na new salt iv : wf64 (g_key g) -> na <> g_alias g ->
-    let st := [realize G smul encode kdf ctr mac_hash g] in
-    let xp := g_xpub G smul encode g in
-    exists l st1,
-      reset_begin kdf ctr mac_hash st xp (g_pw g) = SOk l /\
-      s_alias st xp na = SOk st1 /\
-      forall pw, s_load kdf ctr mac_hash (reset_finish kdf ctr mac_hash st1 xp l new salt iv) xp pw = SErr SELoad.
-  Proof.
-    intros W Hne st xp.
-    set (e := realize G smul encode kdf ctr mac_hash g).
-    assert (Ix : forall a f, is_xpub xp {| se_xpub := xp; se_alias := a; se_kf := f |} = true).
-    { intros a f. unfold is_xpub. cbn [se_xpub]. apply bytes_eqb_refl. }
-    assert (F : find st xp = FOne e).
-    { unfold find, st. cbn [filter]. fold e. unfold e, StoreSpec.realize. fold xp. rewrite Ix. reflexivity. }
-    exists (e, g_key g).
-    exists [{| se_xpub := xp; se_alias := na; se_kf := with_alias (se_kf e) na |}].
-    split; [|split].
-    - unfold reset_begin, load_dec. rewrite F. unfold e. cbn [StoreSpec.realize se_kf se_alias].
-      rewrite (decrypt_encrypt kdf ctr mac_hash ctr_len) by exact W.
-      cbn [Model.encrypt_key kf_alias]. rewrite bytes_eqb_refl. reflexivity.
-    - unfold s_alias. rewrite F. unfold st. cbn [has_alias existsb]. fold e.
-      unfold e at 1. cbn [StoreSpec.realize se_alias].
-      rewrite (bytes_eqb_false (g_alias g) na) by (intros E; apply Hne; symmetry; exact E).
-      cbn [orb]. unfold put. cbn [map]. fold e. unfold e at 1, StoreSpec.realize. fold xp. rewrite Ix.
-      unfold e, StoreSpec.realize. fold xp. reflexivity.
-    - intros pw. cbn [reset_finish]. unfold put_file. cbn [map]. rewrite Ix. cbn [se_xpub se_alias].
-      unfold s_load, load_dec, find. cbn [filter]. rewrite Ix. cbn [pick se_kf se_alias].
-      unfold e. cbn [StoreSpec.realize se_kf Model.encrypt_key kf_alias].
-      rewrite (bytes_eqb_false (g_alias g) na) by (intros E; apply Hne; symmetry; exact E).
-      destruct (decrypt_key _ _ _ _ _); reflexivity.
+    - intros old new s i. unfold s_reset, load_dec. rewrite F. reflexivity.
   Qed.
 End REFUTED.
 
